@@ -971,6 +971,9 @@ type c05PassSpec struct {
 	// passes; at the call site only the err==nil edge of the helper's error
 	// (or returning that error as is) counts as having passed.
 	Success bool
+	// Returned: an error value whose being returned as is means "passed or
+	// failed" (e.g. the result of the verifying call itself).
+	Returned func(v ssa.Value, e *c05Env) bool
 }
 
 // c05PassCut: the instructions/edges of e.Fn that count as "passing": direct
@@ -1054,7 +1057,7 @@ func c05SuccessPasses(e *c05Env, sp c05PassSpec) bool {
 		return c05AlwaysPasses(e, sp)
 	}
 	ct, direct := c05PassCut2(e, sp)
-	if len(ct.instrs) == 0 && len(ct.edges) == 0 && len(direct) == 0 {
+	if len(ct.instrs) == 0 && len(ct.edges) == 0 && len(direct) == 0 && sp.Returned == nil {
 		return false
 	}
 	if c05DeferKeepsError(e.Fn) != "" {
@@ -1062,6 +1065,9 @@ func c05SuccessPasses(e *c05Env, sp c05PassSpec) bool {
 	}
 	for _, a := range c05MaybeNilAtoms(e.Fn) {
 		if direct[a.Val] || direct[strip(a.Val)] {
+			continue
+		}
+		if sp.Returned != nil && sp.Returned(a.Val, e) {
 			continue
 		}
 		if !c05AtomMustPass(a, ct) {
@@ -1143,4 +1149,88 @@ func c05SliceLoop(fn *ssa.Function, isS func(v ssa.Value) bool) (loop *Loop, idx
 		}
 	}
 	return nil, nil, Edge{}
+}
+
+// ---------------------------------------------------------------- verified-copy calls
+
+// c05Copy is a call whose nil error means "src was copied into dst and
+// verified against desc": ioutil.CopyBuffer itself, or a same-package helper
+// whose every possibly-nil-error return lies behind such a call and which
+// passes its own parameters as dst/src/desc.
+type c05Copy struct {
+	Call           ssa.CallInstruction
+	Dst, Src, Desc ssa.Value // values in the calling function
+}
+
+func c05CopyCalls(fn *ssa.Function) []c05Copy { return c05CopyCallsE(c05Root(fn)) }
+
+func c05CopyCallsE(e *c05Env) []c05Copy {
+	var out []c05Copy
+	for _, call := range Calls(e.Fn, func(string) bool { return true }) {
+		if _, isDefer := call.(*ssa.Defer); isDefer {
+			continue
+		}
+		if CalleeName(call) == "~/internal/ioutil.CopyBuffer" {
+			a := call.Common().Args
+			out = append(out, c05Copy{call, a[0], a[1], a[3]})
+			continue
+		}
+		h := c05Helper(call, e.Fn)
+		if h == nil || ErrResultIndex(h.Signature) < 0 || e.depth() >= 3 {
+			continue
+		}
+		onChain := false
+		for a := e; a != nil; a = a.Parent {
+			if a.Fn == h {
+				onChain = true
+			}
+		}
+		if onChain {
+			continue
+		}
+		child := &c05Env{Fn: h, Call: call, Parent: e}
+		sub := c05CopyCallsE(child)
+		if len(sub) == 0 {
+			continue
+		}
+		subRes := map[ssa.Value]bool{}
+		var nilE []Edge
+		for _, sc := range sub {
+			nilE = append(nilE, c05NilEdgesOf(sc.Call)...)
+			if v := sc.Call.Value(); v != nil {
+				for a := range Aliases(v) {
+					subRes[a] = true
+				}
+			}
+		}
+		okSum := c05DeferKeepsError(h) == ""
+		for _, a := range c05MaybeNilAtoms(h) {
+			if subRes[a.Val] || subRes[strip(a.Val)] {
+				continue
+			}
+			if !c05AtomMustPass(a, newCut().Edges(nilE...)) {
+				okSum = false
+			}
+		}
+		if !okSum {
+			continue
+		}
+		// every inner copy must be about the helper's own parameters
+		var cp *c05Copy
+		okMap := true
+		for _, sc := range sub {
+			d, dat := child.up(strip(sc.Dst))
+			sr, sat := child.up(strip(sc.Src))
+			ds, sdt := child.up(sc.Desc)
+			if dat != e || sat != e || sdt != e {
+				okMap = false
+				break
+			}
+			cp = &c05Copy{call, d, sr, ds}
+		}
+		if okMap && cp != nil {
+			out = append(out, *cp)
+		}
+	}
+	return out
 }
